@@ -576,6 +576,28 @@ def _cg_case(prm: dict):
     ez, ed = objective(z), objective(xd)
     if not ed <= ez + 1e-4 * (abs(ez) + 1.0):
         fails.append((f"cg-worse-than-start-{upd}", f"default ConjGrad.forward: objective {ed:.6g} exceeds the start {ez:.6g}"))
+    # (4) "to solver tolerance": when the loop is left through the `tol` test, the TRUE residual of the returned x
+    #     passes that test (mean over the batch and the (re, im) pair of sqrt|<r, r>|)
+    def stat(x):
+        xc = torch.view_as_complex(x.contiguous()).reshape(n_, npx).to(torch.complex128)
+        tot = 0.0
+        for b_ in range(n_):
+            A = As[b_]
+            r = A.conj().T @ yc[b_] + lam64 * zc[b_] - (A.conj().T @ (A @ xc[b_]) + lam64 * xc[b_])
+            tot += math.sqrt(float(r.abs().pow(2).sum()))
+        return tot / (2 * n_)
+
+    s0 = stat(x0)
+    if s0 > 1e-6:
+        tol_t = prm.get("tol_frac", 0.05) * s0
+        blk = ConjGrad(fop, bop, num_iters=4 * npx + 20, tol=tol_t, bk_update_type=CGUpdateType(upd))
+        with torch.no_grad():
+            xt = blk.cg(x0, y, S, m, lam, z)
+        st = stat(xt)
+        info["tol_ratio"] = st / tol_t
+        if not st <= tol_t * (1 + 1e-3) + 1e-5 * s0:
+            fails.append((f"cg-tolerance-{upd}", f"cg stopped with tol = {tol_t:.4g} but the residual statistic of the returned x "
+                                                 f"is {st:.4g}"))
     return fails, info
 
 
